@@ -32,7 +32,7 @@ var c11Space = mkSpace("config", []fieldDim{
 	{"Attribute", c11EpVals},
 	{"Callback", c11EpVals},
 	{"Certificate", c11EpVals},
-	{"Want", []string{"", "false", "0", "true", "1"}},
+	{"Want", []string{"", "false", "0", "true", "1", "True", "TRUE", "t", "T", "yes", "False"}}, // only true / 1 are xs:boolean true (padded spellings are left out: whiteSpace=collapse makes them ambiguous)
 	{"Enc", []string{"", "http://www.w3.org/2001/04/xmlenc#aes256-cbc"}},
 	{"Org", []string{"", "set"}},
 	{"Contact", []string{"", "set"}},
@@ -340,7 +340,7 @@ func init() { Registry["C11"] = runC11 }
 func runC11(ctx Ctx) int {
 	world.PinClock()
 	run := ev.NewRun("C11")
-	run.Rule = "every assignment of 16 configuration dimensions (issuer static / with path / trailing slash / host-derived with path variants / Forwarded-derived; each of the 6 endpoints default / custom path with and without leading slash / trailing slash / deep / external URL; WantAuthRequestsSigned in 5 spellings; encryption algorithm; organisation; contact; validity; cache duration; metadata signing; 3 request Hosts; response-key rotation between metadata fetches) with <= k deviations (k=2 quick, 3 thorough). One execution = one provider and a fixed history of ~14 requests: metadata, a conformant request of each kind addressed to each advertised location and sent to the route it maps onto, SSO error reply, callback success/failure, certificate endpoint, unsigned request"
+	run.Rule = "every assignment of 16 configuration dimensions (issuer static / with path / trailing slash / host-derived with path variants / Forwarded-derived; each of the 6 endpoints default / custom path with and without leading slash / trailing slash / deep / external URL; WantAuthRequestsSigned in 11 spellings (xs:boolean and look-alikes: True, TRUE, t, T, yes); encryption algorithm; organisation; contact; validity; cache duration; metadata signing; 3 request Hosts; response-key rotation between metadata fetches) with <= k deviations (k=2 quick, 3 thorough). One execution = one provider and a fixed history of ~14 requests: metadata, a conformant request of each kind addressed to each advertised location and sent to the route it maps onto, SSO error reply, callback success/failure, certificate endpoint, unsigned request"
 	run.Assume = []string{"locations of endpoints configured with an external URL cannot be mapped onto a route; their requests are sent to the configured path with Destination = the advertised URL"}
 	if ctx.Replay != "" {
 		var p c11P
